@@ -191,3 +191,30 @@ def C06(ctx):
                         "both node stores (standard, semantic-hash over the 64-bit prime); conditioning on every (variable, value) of results and their negations",
                         "engineered family: unit clauses + a two-variable core whose (un)satisfiability is only found by search"]
     record_and_validate(ctx, td_jobs(ctx, 6 if ctx.quick else 40, 150 if ctx.quick else 250), "TraceTopDown", "TraceTopDown_C06.cfg")
+
+
+def C15(ctx):
+    ctx.assumptions += ["CNFs keep <= 25 literal occurrences: the hasher's prime product fits 128 bits, so 'equal hash only if equal residual' applies",
+                        "hasher domain: the partial model is kept in sync with the decide calls (decide(l) together with m.set(l)); variables < num_vars"]
+    n = 4 if ctx.quick else 30
+    record_and_validate(ctx, [("cnf_%d" % i, ["record", "cnf", "--seed", ctx.seed * 1000 + i, "--segments", 60 if ctx.quick else 120,
+                                              "--nmax", 6 + (i % 3)]) for i in range(n)], "TraceCnf", "TraceCnf.cfg")
+
+
+def C14(ctx):
+    ctx.assumptions += ["CNFs without empty clauses and with at least one clause (FORCE divides by the clause length / count)",
+                        "vtree manager: random vtrees with 1..6 leaves, labels not necessarily dense; all pairs of node indices"]
+    n = 4 if ctx.quick else 30
+    record_and_validate(ctx, [("orders_%d" % i, ["record", "orders", "--seed", ctx.seed * 1000 + i, "--segments", 80 if ctx.quick else 150,
+                                                 "--nmax", 4 + (i % 3)]) for i in range(n)], "TraceOrders", "TraceOrders.cfg")
+
+
+def C13(ctx):
+    ctx.assumptions += ["real / complex / expected-utility components are dyadic rationals k/8 (every f64 operation exact); polynomial coefficients small integers",
+                        "finite-field products of the 64/96-bit primes are certified (a*b = q*P + r with r < P, checked by limb arithmetic in Bignum.tla), not recomputed",
+                        "RationalSemiring: only naturals are reachable through the public API"]
+    model_check(ctx, "MC_Semirings", "MC_Semirings.cfg", "the reference carriers obey the semiring / ring / lattice laws (exhaustive small grids)", workers=1, timeout=900)
+    n = 3 if ctx.quick else 12
+    jobs = [("sr_%d" % i, ["record", "semiring", "--seed", ctx.seed * 1000 + i, "--segments", 300 if ctx.quick else 1200] + ([] if ctx.quick else ["--thorough"]))
+            for i in range(n)]
+    record_and_validate(ctx, jobs, "TraceSemiring", "TraceSemiring.cfg")
